@@ -873,11 +873,11 @@ void htp_config_set_u_encoding_unwanted(htp_cfg_t *cfg, enum htp_decoder_ctx_t c
 void htp_config_set_control_chars_unwanted(htp_cfg_t *cfg, enum htp_decoder_ctx_t ctx, enum htp_unwanted_t unwanted) {
     if (ctx >= HTP_DECODER_CONTEXTS_MAX) return;
 
-    cfg->decoder_cfgs[ctx].u_encoding_unwanted = unwanted;
+    cfg->decoder_cfgs[ctx].control_chars_unwanted = unwanted;
 
     if (ctx == HTP_DECODER_DEFAULTS) {
         for (size_t i = 0; i < HTP_DECODER_CONTEXTS_MAX; i++) {
-            cfg->decoder_cfgs[i].u_encoding_unwanted = unwanted;
+            cfg->decoder_cfgs[i].control_chars_unwanted = unwanted;
         }
     }
 }
